@@ -20,6 +20,9 @@ package splunk
 import (
 	"encoding/json"
 	"fmt"
+	"math"
+	"strconv"
+	"strings"
 
 	"github.com/siglens/siglens/pkg/config"
 	writer "github.com/siglens/siglens/pkg/es/writer"
@@ -98,6 +101,37 @@ func ProcessSplunkHecIngestRequest(ctx *fasthttp.RequestCtx, myid int64) {
 	ctx.SetStatusCode(fasthttp.StatusOK)
 }
 
+// hecTimeToMillis converts the HEC "time" value to epoch milliseconds; 0 means no usable time.
+func hecTimeToMillis(value interface{}) uint64 {
+	var seconds float64
+	switch v := value.(type) {
+	case float64:
+		seconds = v
+	case json.Number:
+		f, err := v.Float64()
+		if err != nil {
+			return 0
+		}
+		seconds = f
+	case string:
+		f, err := strconv.ParseFloat(strings.TrimSpace(v), 64)
+		if err != nil {
+			return 0
+		}
+		seconds = f
+	default:
+		return 0
+	}
+	if seconds <= 0 || math.IsNaN(seconds) || math.IsInf(seconds, 0) {
+		return 0
+	}
+	if utils.IsTimeInMilli(uint64(seconds)) {
+		// already in milliseconds
+		return uint64(seconds)
+	}
+	return uint64(math.Round(seconds * 1000))
+}
+
 func getPLE(record map[string]interface{}, myid int64, tsKey *string, jsParsingStackbuf []byte) (error, int, *segwriter.ParsedLogEvent) {
 	if record["index"] == "" || record["index"] == nil {
 		record["index"] = "default"
@@ -132,6 +166,12 @@ func getPLE(record map[string]interface{}, myid int64, tsKey *string, jsParsingS
 	ple, err := segwriter.GetNewPLE(recordAsBytes, tsNow, indexNameIn, tsKey, jsParsingStackbuf[:])
 	if err != nil {
 		return fmt.Errorf("Failed to get new PLE: %v", err), fasthttp.StatusServiceUnavailable, nil
+	}
+
+	// The HEC "time" field carries the event time: epoch seconds, optionally with a fraction
+	// (<sec>.<ms>), as a number or a string.
+	if timeMs := hecTimeToMillis(record["time"]); timeMs > 0 {
+		ple.SetTimestamp(timeMs)
 	}
 
 	return nil, fasthttp.StatusOK, ple
